@@ -1,6 +1,7 @@
 package main
 
 import (
+	"strings"
 	"fmt"
 	"go/token"
 	"go/types"
@@ -110,6 +111,18 @@ func ruleLexPos(c *Ctx) {
 				c.bad(key, st.Pos(), "%s writes Lexer.%s outside next(): the position bookkeeping (nextPos = line/column of src[offset]) is only maintained by next(); adjusting it by hand is wrong whenever the adjusted character is a newline or carriage return", fnKey(fn), f)
 			}
 		})
+	}
+	// (a lexer that never un-reads by restoring a snapshot has nothing to get wrong here)
+	{
+		nRestore := 0
+		for _, o := range c.obs {
+			if strings.HasPrefix(o.Key, "restore:") {
+				nRestore++
+			}
+		}
+		if nRestore == 0 {
+			c.ok("restore:none", token.NoPos, "no function of the lexer overwrites the Lexer's whole state (no snapshot/restore un-read)")
+		}
 	}
 	c.atLeast("stores to cursor/position fields", nStores, 6)
 	c.atLeast("stores inside next()", nOwners, 5)
